@@ -139,9 +139,14 @@ def r3_reclaim_on_stop(ctx):
             reach = f.reachable(f.succ[s] if evs else [0], cut_blocks=rec, cut_edges=exc_edges)
             leak = [x for x in f.returns() if x in reach]
             if leak and evs:
-                # the reclaim may also come first: the whole function runs under the stream lock and none of the reclaimers
-                # consults the state the stop event changes — accept when every exit that passed the event also passed a reclaimer
-                def on_term(us, bi, t, s=s, rec=rec):
+                # the reclaim may come first only when it is `reserve_capacity`: that one also lowers requested_send_capacity to
+                # what is buffered, so the stream cannot win the freed window back whatever its state.  reclaim_reserved_capacity
+                # and reclaim_all_capacity leave the request standing and redistribute at once (assign_connection_capacity ->
+                # try_assign_capacity, which asks is_send_streaming): run before the stop event they hand the window straight
+                # back to the stream that is about to die (seeded C16-e)
+                rec_first = [bi for bi, t in f.calls(lambda t: t['fn'] == PRIO + '::reserve_capacity')]
+
+                def on_term(us, bi, t, s=s, rec=rec_first):
                     return us | (1 if bi == s else 0) | (2 if bi in rec else 0)
                 exits, ins, parent = core.scan(f, 0, None, on_term)
                 if all((us & 2) for (bi, us, rc, st) in exits if us & 1):
